@@ -33,14 +33,14 @@ class CheckC07(core.Check):
         if self.tier == "quick":
             for p in PATTERN_NAMES:
                 for ps in [()] + rnd.sample([x for x in self._psk_sets(p) if x], 2):
-                    for _ in range(40 if not ps else 25):
+                    for _ in range(200 if not ps else 120):
                         name = make_name(p, ps, rnd.choice(DHS), rnd.choice(CIPHERS), rnd.choice(HASHES))
                         descs.append((name, rnd.getrandbits(32)))
         else:
             for p, ps in all_variants():
                 for dh in DHS:
                     for ci in ("ChaChaPoly", "AESGCM"):
-                        for _ in range(24):
+                        for _ in range(120):
                             descs.append((make_name(p, ps, dh, ci, rnd.choice(HASHES)), rnd.getrandbits(32)))
         return descs
 
